@@ -142,7 +142,9 @@ class CellObject(Points, ABC):
 
         new_index = np.ones_like(vert_index, dtype=int)
         new_index[vert_index] = np.arange(self.vertices.shape[0])
-        self.remove_cells(np.where(~np.all(vert_index[self.cells], axis=1)))
+        rem_cells = np.where(~np.all(vert_index[self.cells], axis=1))[0]
+        if len(rem_cells) > 0:
+            self.remove_cells(rem_cells, clear_cache=clear_cache)
         self.cells = new_index[self.cells]
 
     def copy(  # pylint: disable=too-many-branches
